@@ -325,10 +325,10 @@ Spline<K, G> Spline<K, G>::crop(double ta, double tb, bool localize) const
   for (auto i = 0u; i < Nseg; ++i) {
     if (i == Nseg - 1) {
       end_t[i] = tb - ta;
-      end_g[i] = composition(inverse(ga), operator()(tb));
+      end_g[i] = localize ? composition(inverse(ga), operator()(tb)) : operator()(tb);
     } else {
       end_t[i] = m_end_t[i0 + i] - ta;
-      end_g[i] = composition(inverse(ga), m_end_g[i0 + i]);
+      end_g[i] = localize ? composition(inverse(ga), m_end_g[i0 + i]) : m_end_g[i0 + i];
     }
     vs[i]      = m_Vs[i0 + i];
     seg_T0[i]  = m_seg_T0[i0 + i];
@@ -337,7 +337,7 @@ Spline<K, G> Spline<K, G>::crop(double ta, double tb, bool localize) const
 
   // crop first segment
   {
-    const double tta = 0;
+    const double tta = i0 == 0 ? 0 : m_end_t[i0 - 1];
     const double ttb = m_end_t[i0];
     const double sa  = ta;
     const double sb  = ttb;
@@ -348,8 +348,8 @@ Spline<K, G> Spline<K, G>::crop(double ta, double tb, bool localize) const
 
   // crop last segment
   {
-    const double tta = Nseg == 1 ? ta : m_end_t[Nseg - 2];
-    const double ttb = m_end_t[Nseg - 1];
+    const double tta = Nseg == 1 ? ta : m_end_t[i0 + Nseg - 2];
+    const double ttb = m_end_t[i0 + Nseg - 1];
     const double sa  = tta;
     const double sb  = tb;
 
